@@ -420,7 +420,9 @@ func init() {
 	}
 }
 
-func isPunct(k string) bool { return len(k) > 0 && !(k[0] >= 'a' && k[0] <= 'z') && !(k[0] >= 'A' && k[0] <= 'Z') }
+func isPunct(k string) bool {
+	return len(k) > 0 && !(k[0] >= 'a' && k[0] <= 'z') && !(k[0] >= 'A' && k[0] <= 'Z')
+}
 
 // lexeme and literal value of the i-th token (1-based) of kind k
 // In layouts 2 and 5 string tokens spell keywords ("on", "query", ...): a string is never a keyword,
